@@ -1,1 +1,666 @@
-fn main() {}
+//! C08 correspondence + corruption-search harness, parquet side:
+//! thrift compact protocol (through `ParquetMetaDataReader::decode_metadata`), `BitReader`
+//! varints, delta header, RLE decoder, and structure-aware corruption of whole Parquet files
+//! through the Arrow record-batch reader.
+//!
+//! Case lines:
+//!   C08 tvlq <hex>            thrift varint + zig-zag, observed as `num_rows` of a footer; answer `ok <i64> <bytes consumed>` / `ERR:eof`
+//!   C08 tlist <hdr hex> <n>   thrift list header followed by n KeyValue structs, observed as the key/value count
+//!   C08 bvlq|bzz <hex>        BitReader::get_vlq_int / get_zigzag_vlq_int
+//!   C08 delta <hex>           DeltaBitPackDecoder::<Int64Type>::set_data
+//!   C08 rle <bw> <n> <hex>    RleDecoder::get_batch::<u64> of n values           (search only)
+//!   C08 tmeta <hex>           decode_metadata on raw bytes                        (search only)
+//!   C08 pq <file> <mutation>  corrupted Parquet file through ParquetRecordBatchReader (search only)
+//!   C08 pqraw <hex>           the same on explicit bytes                          (search only)
+//! Every case runs in a worker process under a watchdog and a capping allocator (c08_infra.rs).
+use arrow_array::{Array, ArrayRef, BooleanArray, Int32Array, Int64Array, ListArray, RecordBatch, StringArray};
+use arrow_array::builder::{Int32Builder, ListBuilder};
+use bytes::Bytes;
+use parquet::arrow::ArrowWriter;
+use parquet::arrow::arrow_reader::{ArrowReaderOptions, ParquetRecordBatchReaderBuilder};
+use parquet::basic::{Compression, Encoding, GzipLevel, ZstdLevel, BrotliLevel};
+use parquet::data_type::Int64Type;
+use parquet::encodings::decoding::{Decoder, DeltaBitPackDecoder};
+use parquet::encodings::rle::RleDecoder;
+use parquet::errors::ParquetError;
+use parquet::file::metadata::{PageIndexPolicy, ParquetMetaDataReader};
+use parquet::file::properties::{EnabledStatistics, WriterProperties, WriterVersion};
+use parquet::util::bit_util::BitReader;
+use vcommon::*;
+
+include!("../c08_infra.rs");
+
+#[global_allocator]
+static GLOBAL: CapAlloc = CapAlloc;
+
+// ------------------------------------------------------------------ thrift through decode_metadata
+
+/// version = 1, schema = [root "r" with one child, required INT32 "a"]
+const FOOTER_HEAD: &[u8] = &[
+    0x15, 0x02, // 1: version = 1
+    0x19, 0x2c, // 2: list<struct>, 2 elements
+    0x48, 0x01, b'r', 0x15, 0x02, 0x00, // root: 4: name "r", 5: num_children 1
+    0x15, 0x02, 0x25, 0x00, 0x18, 0x01, b'a', 0x00, // leaf: 1: type INT32, 3: REQUIRED, 4: name "a"
+];
+
+fn err_class(e: &ParquetError) -> &'static str {
+    match e {
+        ParquetError::EOF(_) => "ERR:eof",
+        _ => "ERR:other",
+    }
+}
+
+fn tvlq(bytes: &[u8]) -> String {
+    // 3: num_rows (i64) = <bytes under test>, then 4: row_groups = [] and stop
+    let tail: &[u8] = &[0x19, 0x0c, 0x00];
+    for k in 1..=bytes.len() {
+        let mut f = FOOTER_HEAD.to_vec();
+        f.push(0x16);
+        f.extend_from_slice(&bytes[..k]);
+        f.extend_from_slice(tail);
+        if let Ok(m) = ParquetMetaDataReader::decode_metadata(&f) {
+            return format!("ok {} {}", m.file_metadata().num_rows(), k);
+        }
+    }
+    let mut f = FOOTER_HEAD.to_vec();
+    f.push(0x16);
+    f.extend_from_slice(bytes);
+    match ParquetMetaDataReader::decode_metadata(&f) {
+        Err(e) => err_class(&e).to_string(),
+        Ok(_) => "ok-without-tail".to_string(),
+    }
+}
+
+fn tlist(hdr: &[u8], n: usize) -> String {
+    let mut f = FOOTER_HEAD.to_vec();
+    f.extend_from_slice(&[0x16, 0x00, 0x19, 0x0c]); // 3: num_rows 0, 4: row_groups []
+    f.push(0x19); // 5: key_value_metadata list
+    f.extend_from_slice(hdr);
+    for _ in 0..n {
+        f.extend_from_slice(&[0x18, 0x01, b'k', 0x00]);
+    }
+    f.push(0x00);
+    match ParquetMetaDataReader::decode_metadata(&f) {
+        Ok(m) => format!("ok {}", m.file_metadata().key_value_metadata().map(|v| v.len()).unwrap_or(0)),
+        Err(e) => {
+            // the model distinguishes eof / type / overflow only for the header itself
+            let _ = e;
+            "ERR".to_string()
+        }
+    }
+}
+
+// ------------------------------------------------------------------ parquet files
+
+fn validate_batch(b: &RecordBatch) -> Result<(), String> {
+    for (i, c) in b.columns().iter().enumerate() {
+        if c.len() != b.num_rows() {
+            return Err(format!("col{}:len", i));
+        }
+        c.to_data().validate_full().map_err(|e| format!("col{}:{}", i, slug(&e.to_string())))?;
+    }
+    Ok(())
+}
+
+fn read_parquet(v: Vec<u8>) -> String {
+    let b = Bytes::from(v);
+    for page_index in [true, false] {
+        let opts = ArrowReaderOptions::new().with_page_index_policy(if page_index { PageIndexPolicy::Required } else { PageIndexPolicy::Skip });
+        let builder = match ParquetRecordBatchReaderBuilder::try_new_with_options(b.clone(), opts) {
+            Ok(x) => x,
+            Err(_) => {
+                if page_index {
+                    continue;
+                } else {
+                    return "ERR".into();
+                }
+            }
+        };
+        let reader = match builder.with_batch_size(16).build() {
+            Ok(r) => r,
+            Err(_) => return "ERR".into(),
+        };
+        let mut rows = 0usize;
+        for batch in reader {
+            match batch {
+                Err(_) => return "ERR".into(),
+                Ok(rb) => {
+                    if let Err(e) = validate_batch(&rb) {
+                        return format!("INVALID:{}", e);
+                    }
+                    rows += rb.num_rows();
+                    if rows > 1_000_000 {
+                        return "INVALID:rows-unbounded".into();
+                    }
+                }
+            }
+        }
+        return format!("ok:{}", rows);
+    }
+    "ERR".into()
+}
+
+fn sample_batch(rows: usize) -> RecordBatch {
+    let i32s: Int32Array = (0..rows).map(|i| if i % 5 == 3 { None } else { Some((i as i32 * 37) % 11 - 3) }).collect();
+    let i64s: Int64Array = (0..rows).map(|i| Some(1_000_000_007i64 * i as i64 - 5)).collect();
+    let strs: StringArray =
+        (0..rows).map(|i| if i % 7 == 2 { None } else { Some(["a", "bb", "héllo", "", "zzzz"][i % 5].to_string()) }).collect();
+    let bools: BooleanArray = (0..rows).map(|i| Some(i % 3 == 0)).collect();
+    let mut lb = ListBuilder::new(Int32Builder::new());
+    for i in 0..rows {
+        if i % 4 == 1 {
+            lb.append(false);
+        } else {
+            for j in 0..(i % 3) {
+                lb.values().append_value((i + j) as i32);
+            }
+            lb.append(true);
+        }
+    }
+    let lists: ListArray = lb.finish();
+    RecordBatch::try_from_iter_with_nullable(vec![
+        ("i", Arc::new(i32s) as ArrayRef, true),
+        ("l", Arc::new(i64s) as ArrayRef, false),
+        ("s", Arc::new(strs) as ArrayRef, true),
+        ("b", Arc::new(bools) as ArrayRef, false),
+        ("li", Arc::new(lists) as ArrayRef, true),
+    ])
+    .unwrap()
+}
+
+pub const N_FILES: usize = 8;
+
+/// deterministic valid base files: encodings × codecs × page versions
+fn base_file(id: usize) -> Vec<u8> {
+    let rows = 24;
+    let mut p = WriterProperties::builder().set_statistics_enabled(EnabledStatistics::Page).set_data_page_row_count_limit(10).set_write_batch_size(5);
+    p = match id {
+        0 => p.set_compression(Compression::UNCOMPRESSED).set_dictionary_enabled(false),
+        1 => p.set_compression(Compression::SNAPPY).set_dictionary_enabled(true),
+        2 => p
+            .set_compression(Compression::ZSTD(ZstdLevel::try_new(1).unwrap()))
+            .set_writer_version(WriterVersion::PARQUET_2_0)
+            .set_dictionary_enabled(false)
+            .set_encoding(Encoding::DELTA_BINARY_PACKED),
+        3 => p.set_compression(Compression::GZIP(GzipLevel::try_new(1).unwrap())).set_writer_version(WriterVersion::PARQUET_2_0).set_dictionary_enabled(true),
+        4 => p.set_compression(Compression::LZ4_RAW).set_dictionary_enabled(false).set_column_encoding("s".into(), Encoding::DELTA_BYTE_ARRAY),
+        5 => p.set_compression(Compression::BROTLI(BrotliLevel::try_new(1).unwrap())).set_dictionary_enabled(false).set_column_encoding("s".into(), Encoding::DELTA_LENGTH_BYTE_ARRAY),
+        6 => p.set_compression(Compression::UNCOMPRESSED).set_writer_version(WriterVersion::PARQUET_2_0).set_dictionary_enabled(true).set_bloom_filter_enabled(true),
+        _ => p.set_compression(Compression::UNCOMPRESSED).set_dictionary_enabled(false).set_column_encoding("l".into(), Encoding::BYTE_STREAM_SPLIT).set_statistics_enabled(EnabledStatistics::None),
+    };
+    let batch = sample_batch(rows);
+    let mut out = Vec::new();
+    {
+        let mut w = ArrowWriter::try_new(&mut out, batch.schema(), Some(p.build())).unwrap();
+        w.write(&batch).unwrap();
+        if id % 2 == 1 {
+            w.flush().unwrap(); // second row group
+            w.write(&batch.slice(3, 9)).unwrap();
+        }
+        w.close().unwrap();
+    }
+    out
+}
+
+/// apply a mutation spec to a file:
+///   set:<off>:<hex byte>   xor:<off>:<hex mask>   trunc:<len>
+///   splice:<off>:<del>:<hex>            (length changes; nothing fixed up)
+///   fsplice:<off>:<del>:<hex>           (footer length field adjusted when the edit is inside the footer)
+///   cross:<other file>:<src off>:<len>:<dst off>   (overwrite with bytes of another base file)
+///   le32:<off>:<i64 value>              (write a little-endian u32)
+fn mutate(mut f: Vec<u8>, spec: &str, files: &dyn Fn(usize) -> Vec<u8>) -> Vec<u8> {
+    let t: Vec<&str> = spec.split(':').collect();
+    let us = |s: &str| s.parse::<usize>().unwrap_or(0);
+    match t[0] {
+        "set" => {
+            let o = us(t[1]);
+            if o < f.len() {
+                f[o] = u8::from_str_radix(t[2], 16).unwrap_or(0);
+            }
+        }
+        "xor" => {
+            let o = us(t[1]);
+            if o < f.len() {
+                f[o] ^= u8::from_str_radix(t[2], 16).unwrap_or(0);
+            }
+        }
+        "trunc" => f.truncate(us(t[1])),
+        "splice" | "fsplice" => {
+            let (o, d) = (us(t[1]).min(f.len()), us(t[2]));
+            let ins = unhex(t[3]);
+            let e = (o + d).min(f.len());
+            let n = f.len();
+            if t[0] == "fsplice" && n >= 8 {
+                let flen = u32::from_le_bytes([f[n - 8], f[n - 7], f[n - 6], f[n - 5]]) as usize;
+                if flen + 8 <= n && o >= n - 8 - flen && e <= n - 8 {
+                    let nl = (flen + ins.len() - (e - o)) as u32;
+                    f[n - 8..n - 4].copy_from_slice(&nl.to_le_bytes());
+                }
+            }
+            f.splice(o..e, ins);
+        }
+        "cross" => {
+            let other = files(us(t[1]));
+            let (so, l, d) = (us(t[2]), us(t[3]), us(t[4]));
+            for i in 0..l {
+                if so + i < other.len() && d + i < f.len() {
+                    f[d + i] = other[so + i];
+                }
+            }
+        }
+        "le32" => {
+            let o = us(t[1]);
+            let v = t[2].parse::<i64>().unwrap_or(0) as u32;
+            if o + 4 <= f.len() {
+                f[o..o + 4].copy_from_slice(&v.to_le_bytes());
+            }
+        }
+        _ => {}
+    }
+    f
+}
+
+// ------------------------------------------------------------------ run one case (in the worker)
+
+fn run_case(line: &str) -> String {
+    let t: Vec<&str> = line.split(' ').collect();
+    if t.len() < 2 || t[0] != "C08" {
+        return "bad-case".into();
+    }
+    let arg = |i: usize| t.get(i).copied().unwrap_or("-");
+    match t[1] {
+        "tvlq" => {
+            let b = unhex(arg(2));
+            guarded(move || tvlq(&b))
+        }
+        "tlist" => {
+            let b = unhex(arg(2));
+            let n = arg(3).parse::<usize>().unwrap_or(0);
+            guarded(move || tlist(&b, n))
+        }
+        "bvlq" | "bzz" => {
+            let b = unhex(arg(2));
+            let zz = t[1] == "bzz";
+            guarded(move || {
+                let mut r = BitReader::new(Bytes::from(b));
+                let v = if zz { r.get_zigzag_vlq_int() } else { r.get_vlq_int() };
+                match v {
+                    None => "none".into(),
+                    Some(v) => format!("ok {} {}", v, r.get_byte_offset()),
+                }
+            })
+        }
+        "delta" => {
+            let b = unhex(arg(2));
+            guarded(move || {
+                let mut d = DeltaBitPackDecoder::<Int64Type>::new();
+                match d.set_data(Bytes::from(b), 0) {
+                    Ok(()) => "ok".into(),
+                    Err(_) => "ERR".into(),
+                }
+            })
+        }
+        "rle" => {
+            let bw = arg(2).parse::<u8>().unwrap_or(1).min(64);
+            let n = arg(3).parse::<usize>().unwrap_or(0).min(1 << 16);
+            let b = unhex(arg(4));
+            guarded(move || {
+                let mut d = RleDecoder::new(bw);
+                if d.set_data(Bytes::from(b)).is_err() {
+                    return "ERR".into();
+                }
+                let mut out = vec![0u64; n];
+                match d.get_batch::<u64>(&mut out) {
+                    Ok(k) => {
+                        if k > n {
+                            return "INVALID:count".into();
+                        }
+                        if bw < 64 && out[..k].iter().any(|v| *v >> bw != 0) {
+                            return "INVALID:value-exceeds-bit-width".into();
+                        }
+                        format!("ok:{}", k)
+                    }
+                    Err(_) => "ERR".into(),
+                }
+            })
+        }
+        "tmeta" => {
+            let b = unhex(arg(2));
+            guarded(move || match ParquetMetaDataReader::decode_metadata(&b) {
+                Ok(_) => "ok".into(),
+                Err(_) => "ERR".into(),
+            })
+        }
+        "pq" => {
+            let id = arg(2).trim_start_matches('f').parse::<usize>().unwrap_or(0) % N_FILES;
+            let spec = arg(3).to_string();
+            guarded(move || read_parquet(mutate(base_file(id), &spec, &|i| base_file(i % N_FILES))))
+        }
+        "pqraw" => {
+            let b = unhex(arg(2));
+            guarded(move || read_parquet(b))
+        }
+        _ => "bad-op".into(),
+    }
+}
+
+// ------------------------------------------------------------------ generators (parent)
+
+fn uleb(mut v: u64) -> Vec<u8> {
+    let mut o = vec![];
+    while v >= 0x80 {
+        o.push(v as u8 | 0x80);
+        v >>= 7;
+    }
+    o.push(v as u8);
+    o
+}
+
+/// varint-shaped byte strings: canonical, padded (over-long), truncated, overflowing, all-ones
+fn gen_varint(rng: &mut Rng) -> (Vec<u8>, &'static str) {
+    let v = match rng.below(6) {
+        0 => rng.below(300),
+        1 => 1u64 << rng.below(64),
+        2 => (1u64 << rng.below(64)).wrapping_sub(1),
+        3 => u64::MAX - rng.below(3),
+        4 => rng.next_u64() >> rng.below(64),
+        _ => rng.next_u64(),
+    };
+    let mut b = uleb(v);
+    let class = match rng.below(10) {
+        0 | 1 | 2 | 3 => "canon",
+        4 => {
+            // pad with 0x80 … 0x00 up to a random total length (over-long)
+            let total = b.len() + 1 + rng.usize(12);
+            let n = b.len();
+            b[n - 1] |= 0x80;
+            while b.len() < total - 1 {
+                b.push(0x80);
+            }
+            b.push(0x00);
+            "padded"
+        }
+        5 => {
+            let k = rng.usize(b.len());
+            b.truncate(k);
+            for x in b.iter_mut() {
+                *x |= 0x80;
+            }
+            "truncated"
+        }
+        6 => {
+            // ten or eleven bytes with a large last byte (overflow)
+            let n = 9 + rng.usize(3);
+            b = (0..n).map(|_| 0x80 | rng.next_u64() as u8).collect();
+            b.push(rng.below(0x80) as u8);
+            "overflow"
+        }
+        7 => {
+            let n = rng.usize(14);
+            b = vec![0xff; n];
+            if rng.bool() {
+                b.push(*rng.pick(&[0x00u8, 0x01, 0x02, 0x7f]));
+            }
+            "ones"
+        }
+        8 => {
+            b = { let n_ = rng.usize(13); rng.bytes(n_) };
+            "random"
+        }
+        _ => {
+            b.extend({ let n_ = rng.usize(4); rng.bytes(n_) });
+            "trailing"
+        }
+    };
+    (b, class)
+}
+
+fn nt_varint(b: &[u8]) -> &'static str {
+    if b.len() >= 2 { "nt" } else { "" }
+}
+
+fn gen_unit(rng: &mut Rng) -> (String, String, usize) {
+    match rng.below(9) {
+        0 | 1 => {
+            let (b, c) = gen_varint(rng);
+            (format!("C08 tvlq {}", hex(&b)), format!("op:tvlq vc:{} {}", c, nt_varint(&b)), b.len())
+        }
+        2 => {
+            // list header: short form, long form (canonical / padded / > i32::MAX), bad types
+            let ty = *rng.pick(&[12u8, 12, 12, 12, 1, 2, 8, 0, 14, 15, 9]);
+            let (mut hdr, n, c);
+            match rng.below(6) {
+                0 | 1 => {
+                    let k = rng.below(15) as u8;
+                    hdr = vec![(k << 4) | ty];
+                    n = k as usize;
+                    c = "short";
+                }
+                2 => {
+                    let k = rng.below(40) as usize;
+                    hdr = vec![0xf0 | ty];
+                    hdr.extend(uleb(k as u64));
+                    n = k;
+                    c = "long";
+                }
+                3 => {
+                    let k = rng.below(20) as usize;
+                    hdr = vec![0xf0 | ty];
+                    let mut v = uleb(k as u64);
+                    let l = v.len();
+                    v[l - 1] |= 0x80;
+                    for _ in 0..rng.usize(10) {
+                        v.push(0x80);
+                    }
+                    v.push(0);
+                    hdr.extend(v);
+                    n = k;
+                    c = "long-padded";
+                }
+                4 => {
+                    hdr = vec![0xf0 | ty];
+                    hdr.extend(uleb((1u64 << 31) + rng.below(5) - 2 + (rng.below(2) << 40)));
+                    n = 0;
+                    c = "long-huge";
+                }
+                _ => {
+                    let k = 1 + rng.below(14) as u8;
+                    hdr = vec![(k << 4) | ty];
+                    n = rng.usize(k as usize);
+                    c = "short-missing";
+                }
+            }
+            let nn = if c == "long-huge" { 0 } else { n };
+            (format!("C08 tlist {} {}", hex(&hdr), nn), format!("op:tlist lc:{} ty:{} nt", c, ty), hdr.len() + 4 * nn)
+        }
+        3 | 4 => {
+            let (b, c) = gen_varint(rng);
+            let op = if rng.bool() { "bvlq" } else { "bzz" };
+            (format!("C08 {} {}", op, hex(&b)), format!("op:{} vc:{} {}", op, c, nt_varint(&b)), b.len())
+        }
+        5 => {
+            // delta header: block size, miniblocks, count, first value
+            let bs = *rng.pick(&[128u64, 256, 128, 100, 0, 1 << 40, u64::MAX]);
+            let mb = *rng.pick(&[4u64, 4, 1, 8, 3, 0, 128, 1 << 33]);
+            let mut b = uleb(bs);
+            b.extend(uleb(mb));
+            b.extend(uleb(rng.below(1000)));
+            let (fv, c) = gen_varint(rng);
+            b.extend(fv);
+            if rng.chance(1, 6) {
+                let k = rng.usize(b.len() + 1);
+                b.truncate(k);
+            }
+            if rng.chance(1, 8) {
+                b = vec![0xff; 9 + rng.usize(4)];
+            }
+            (format!("C08 delta {}", hex(&b)), format!("op:delta vc:{} nt", c), b.len())
+        }
+        6 | 7 => {
+            // RLE stream: mostly valid runs with corrupted indicator varints
+            let bw = *rng.pick(&[1u8, 2, 3, 7, 8, 9, 16, 31, 32, 33, 64, 0]);
+            let mut b = vec![];
+            for _ in 0..1 + rng.usize(4) {
+                if rng.bool() {
+                    b.extend(uleb(rng.below(20) << 1)); // rle run
+                    b.extend(rng.bytes((bw as usize).div_ceil(8)));
+                } else {
+                    let groups = 1 + rng.below(3);
+                    b.extend(uleb((groups << 1) | 1));
+                    b.extend(rng.bytes(groups as usize * bw as usize));
+                }
+            }
+            match rng.below(5) {
+                0 => {
+                    let (v, _) = gen_varint(rng);
+                    let at = rng.usize(b.len() + 1);
+                    b.splice(at..at, v);
+                }
+                1 => {
+                    let k = rng.usize(b.len() + 1);
+                    b.truncate(k);
+                }
+                2 => b = [uleb(u64::MAX >> rng.below(3)), rng.bytes(8)].concat(),
+                _ => {}
+            }
+            let n = *rng.pick(&[0usize, 1, 8, 33, 100, 1000]);
+            (format!("C08 rle {} {} {}", bw, n, hex(&b)), format!("op:rle bw:{} nt", bw), b.len())
+        }
+        _ => {
+            // raw footer fragments around the fixed head
+            let mut f = FOOTER_HEAD.to_vec();
+            let extra = match rng.below(4) {
+                0 => { let n_ = rng.usize(12); rng.bytes(n_) },
+                1 => [vec![0x16, 0x00, 0x19, 0x0c], { let n_ = rng.usize(8); rng.bytes(n_) }].concat(),
+                2 => vec![0x16, 0x00, 0x19, 0x0c, 0x19, 0xfc, 0x03],
+                _ => vec![0x16, 0x00, 0x19, 0x0c, 0x00],
+            };
+            f.extend(extra);
+            if rng.chance(1, 3) {
+                let i = rng.usize(f.len());
+                f[i] = rng.next_u64() as u8;
+            }
+            (format!("C08 tmeta {}", hex(&f)), "op:tmeta nt".to_string(), f.len())
+        }
+    }
+}
+
+/// hand-picked witnesses of the negative theorems, replayed on the real code
+fn witnesses() -> Vec<(String, String, usize)> {
+    let mut v = vec![];
+    let mut w = |line: String, tags: &str| {
+        let n = line.split(' ').last().map(|h| h.len() / 2).unwrap_or(0);
+        v.push((line, tags.to_string(), n))
+    };
+    // read_thrift_vec: Vec::with_capacity(i32::MAX) from a 6-byte list header (schema list)
+    w("C08 tmeta 1502".to_string() + "19fcffffffff07", "op:tmeta witness:thrift-vec-capacity nt");
+    // key_value_metadata list after a complete footer
+    w(format!("C08 tmeta {}1600190c19fcffffffff07", hex(FOOTER_HEAD)), "op:tmeta witness:thrift-vec-capacity nt");
+    w("C08 tlist fcffffffff07 0".into(), "op:tlist witness:thrift-vec-capacity nt");
+    // row_groups list: hand-written reader in file/metadata/thrift/mod.rs
+    w(format!("C08 tmeta {}160019fcffffffff07", hex(FOOTER_HEAD)), "op:tmeta witness:thrift-rowgroup-capacity nt");
+    // skip of a list<bool> with 2^31-1 elements in an unknown field (id 15): loop without consuming input
+    w(format!("C08 tmeta {}1600190c{}", hex(FOOTER_HEAD), "f9f1ffffffff0700"), "op:tmeta witness:thrift-skip-bool-list nt");
+    // BitReader::get_vlq_int assert
+    w("C08 bvlq ffffffffffffffffffffff".into(), "op:bvlq witness:bitreader-vlq-overlong nt");
+    w("C08 delta ffffffffffffffffffffff01".into(), "op:delta witness:bitreader-vlq-overlong nt");
+    w("C08 rle 1 8 ffffffffffffffffffffff01".into(), "op:rle witness:bitreader-vlq-overlong nt");
+    // thrift over-long varint accepted with a wrapped value
+    w("C08 tvlq 8080808080808080808001".into(), "op:tvlq witness:thrift-vlq-overlong nt");
+    v
+}
+
+fn sweep(args: &Args, rng: &mut Rng) -> Vec<(String, String, usize)> {
+    let mut out = vec![];
+    let thorough = args.tier == "thorough";
+    for id in 0..N_FILES {
+        let f = base_file(id);
+        let n = f.len();
+        let flen = u32::from_le_bytes([f[n - 8], f[n - 7], f[n - 6], f[n - 5]]) as usize;
+        let fstart = n - 8 - flen;
+        let mut push = |spec: String, class: &str, out: &mut Vec<(String, String, usize)>| {
+            out.push((format!("C08 pq f{} {}", id, spec), format!("op:pq file:f{} mut:{} nt", id, class), n));
+        };
+        push("xor:0:00".into(), "none", &mut out);
+        // single-byte mutations: every offset in the footer, strided in the data pages (quick)
+        let stride = if thorough { 1 } else { 3 };
+        for off in 0..n {
+            let in_footer = off >= fstart;
+            if !in_footer && off % stride != (id % stride) {
+                continue;
+            }
+            let vals: &[&str] = if thorough || in_footer { &["set:ff", "set:00", "xor:01", "xor:80"] } else { &["set:ff", "xor:01"] };
+            for v in vals {
+                let (k, x) = v.split_once(':').unwrap();
+                push(format!("{}:{}:{}", k, off, x), if in_footer { "byte-footer" } else { "byte-data" }, &mut out);
+            }
+        }
+        // truncations
+        let tstride = if thorough { 1 } else { 7 };
+        for len in (0..n).step_by(tstride) {
+            push(format!("trunc:{}", len), "trunc", &mut out);
+        }
+        // length-field inflations: varint at every footer offset replaced by a huge varint (footer length fixed up)
+        let istride = if thorough { 1 } else { 2 };
+        for off in (fstart..n - 8).step_by(istride) {
+            push(format!("fsplice:{}:1:ffffffff07", off), "inflate-varint-i32max", &mut out);
+            if thorough || off % 4 == 0 {
+                push(format!("fsplice:{}:1:ffffffffffffffff7f", off), "inflate-varint-i64", &mut out);
+                push(format!("fsplice:{}:1:ffffffffffffffffffffff01", off), "inflate-varint-overlong", &mut out);
+            }
+        }
+        // 32-bit length fields: footer length, and every aligned word in the first pages (quick: strided)
+        for v in [-1i64, 0, 1, 0x7fffffff, 0x7ffffff0, n as i64, n as i64 - 8, n as i64 - 7] {
+            push(format!("le32:{}:{}", n - 8, v), "footer-len", &mut out);
+        }
+        // page headers in the data region are thrift too: inflate varints there
+        let dstride = if thorough { 1 } else { 5 };
+        for off in (4..fstart).step_by(dstride) {
+            push(format!("splice:{}:1:ffffffff07", off), "inflate-data-varint", &mut out);
+            push(format!("splice:{}:0:ffffffffffffffffffffff", off), "insert-overlong", &mut out);
+        }
+        // cross-splices with another file
+        let ncross = if thorough { 400 } else { 40 };
+        for _ in 0..ncross {
+            let other = (id + 1 + rng.usize(N_FILES - 1)) % N_FILES;
+            let l = 1 + rng.usize(64);
+            push(format!("cross:{}:{}:{}:{}", other, rng.usize(n), l, rng.usize(n)), "cross", &mut out);
+        }
+    }
+    out
+}
+
+fn main() {
+    let argv: Vec<String> = std::env::args().collect();
+    if argv.get(1).map(|s| s.as_str()) == Some("worker") {
+        worker_main();
+        return;
+    }
+    let args = parse_args();
+    let mut sink = Sink::new(&args.out);
+    let timeout = Duration::from_secs(if args.tier == "thorough" { 20 } else { 8 });
+    let mut w = Worker::spawn(timeout);
+    if args.mode == "replay" {
+        for line in read_cases(args.replay.as_ref().unwrap()) {
+            let n = line.split(' ').last().map(|h| h.len() / 2).unwrap_or(0);
+            run_and_record(&mut w, &mut sink, line, "replay", n);
+        }
+    } else {
+        let mut rng = Rng::new(args.seed ^ 0xC08);
+        for (line, tags, n) in witnesses() {
+            run_and_record(&mut w, &mut sink, line, &tags, n);
+        }
+        let n = n_cases(&args, 6000, 200000);
+        for _ in 0..n {
+            let (line, tags, len) = gen_unit(&mut rng);
+            run_and_record(&mut w, &mut sink, line, &tags, len);
+        }
+        if args.cases.is_none() {
+            for (line, tags, len) in sweep(&args, &mut rng) {
+                run_and_record(&mut w, &mut sink, line, &tags, len);
+            }
+        }
+    }
+    drop(w);
+    sink.finish();
+}
